@@ -9,6 +9,9 @@
 // interfaces)
 // - Return value handling
 
+#ifdef CB_VERIF
+#include "../../../../common/verif_hooks.h"
+#endif
 #include "../../../../common/ast.h"
 #include "../../../../common/debug.h"
 #include "../../../../common/debug_messages.h"
@@ -3807,6 +3810,9 @@ int64_t ExpressionEvaluator::evaluate_function_call_impl(const ASTNode *node) {
             // 秒をミリ秒に変換 + マイクロ秒をミリ秒に変換
             int64_t timestamp_ms = static_cast<int64_t>(tv.tv_sec) * 1000 +
                                    static_cast<int64_t>(tv.tv_usec) / 1000;
+#ifdef CB_VERIF
+            timestamp_ms = cbv_clock(timestamp_ms);
+#endif
 
             return timestamp_ms;
 #endif
@@ -3863,6 +3869,9 @@ int64_t ExpressionEvaluator::evaluate_function_call_impl(const ASTNode *node) {
             gettimeofday(&tv, nullptr);
             int64_t current_time_ms = static_cast<int64_t>(tv.tv_sec) * 1000 +
                                       static_cast<int64_t>(tv.tv_usec) / 1000;
+#endif
+#ifdef CB_VERIF
+            current_time_ms = cbv_clock(current_time_ms);
 #endif
 
             int64_t timeout_time_ms = current_time_ms + timeout_ms;
@@ -3968,6 +3977,9 @@ int64_t ExpressionEvaluator::evaluate_function_call_impl(const ASTNode *node) {
             int64_t current_time_ms = static_cast<int64_t>(tv.tv_sec) * 1000 +
                                       static_cast<int64_t>(tv.tv_usec) / 1000;
 #endif
+#ifdef CB_VERIF
+            current_time_ms = cbv_clock(current_time_ms);
+#endif
             sleep_task.wake_up_time_ms = current_time_ms + milliseconds;
 
             // awaitをサポートするため、Future構造体を作成
@@ -4068,6 +4080,9 @@ int64_t ExpressionEvaluator::evaluate_function_call_impl(const ASTNode *node) {
             gettimeofday(&tv, nullptr);
             int64_t current_time_ms = static_cast<int64_t>(tv.tv_sec) * 1000 +
                                       static_cast<int64_t>(tv.tv_usec) / 1000;
+#endif
+#ifdef CB_VERIF
+            current_time_ms = cbv_clock(current_time_ms);
 #endif
             sleep_task.wake_up_time_ms = current_time_ms + milliseconds;
 
@@ -4181,6 +4196,28 @@ int64_t ExpressionEvaluator::evaluate_function_call_impl(const ASTNode *node) {
             method_context.uses_temp_receiver = false;
         }
     };
+#ifdef CB_VERIF
+    struct CbvStackGuard {
+        Interpreter &in;
+        std::string fn;
+        size_t d0, t0, s0;
+        CbvStackGuard(Interpreter &i, const std::string &f)
+            : in(i), fn(f), d0(i.cbv_defer_depth()), t0(i.cbv_dtor_depth()),
+              s0(i.cbv_scope_depth()) {}
+        ~CbvStackGuard() {
+            if (cbv_on("CB_VERIF_STACKS") &&
+                (d0 != in.cbv_defer_depth() || t0 != in.cbv_dtor_depth() ||
+                 s0 != in.cbv_scope_depth())) {
+                std::fflush(stdout);
+                std::fprintf(stderr,
+                             "CBV call-imbalance fn=%s defer=%zu->%zu dtor=%zu->%zu "
+                             "scopes=%zu->%zu\n",
+                             fn.c_str(), d0, in.cbv_defer_depth(), t0,
+                             in.cbv_dtor_depth(), s0, in.cbv_scope_depth());
+            }
+        }
+    } cbv_stack_guard(interpreter_, node ? node->name : std::string("?"));
+#endif
     interpreter_.push_scope();
     bool method_scope_active = true;
 
